@@ -36,6 +36,7 @@ ASSUMPTIONS = [
     'substitution-with-empty-instantiation (copies a cited sequent) / sorry / empty rule / subproof / a level-1 macro expanding to a sorry / a level-1 macro with a 2-step expansion',
     'stated sequents from {absent, |- false, p |- p, |- p, |- p --> p}',
     'identifier components symbolic in [-1,3], citation components symbolic in [-2,3], citation length 1 or 2',
+    'plus one family of two sibling 2-line subproof blocks (+ optional top-level line) with identifiers = positions and all citations symbolic in [-1,2]',
     'two harness macros are registered in kernel.theory.global_macros of the harness process only',
 ]
 RULE = ('one evaluation = one explored path of check_proof over a skeleton (a set of identifier assignments); distinct = distinct (skeleton, decision trace); '
@@ -115,9 +116,10 @@ def units(tier, seed):
                     us.append(('skel', tier, seed, r, s, k))
             else:
                 us.append(('skel', tier, seed, r, s, None))
+    us.append(('skel', tier, seed, 'two-blocks', 0, None))
     us.append(('extend', tier))
     random.Random(seed).shuffle(us)
-    us.sort(key=lambda u: 0 if (u[0] == 'skel' and RULES[u[3]] == 'subproof') else 1)   # longest first
+    us.sort(key=lambda u: 0 if (u[0] == 'skel' and (u[3] == 'two-blocks' or RULES[u[3]] == 'subproof')) else 1)   # longest first
     return us
 
 
@@ -292,6 +294,30 @@ def gen_skeleton(eng, first_rule, first_stated, third_sample=None, sub0=None):
     return descs
 
 
+def gen_skeleton2(eng):
+    """Two sibling subproof blocks of two lines each (identifiers = positions) followed by a top-level line.  Block 0 has no
+    citations; the lines of block 1 and the final line carry symbolic citations (length 1 or 2, components in [-1,2]):
+    citations from a block into a sibling block, into closed blocks, forward and to the enclosing line."""
+    descs = []
+    d0 = {'id': (0,), 'rule': 'subproof', 'th': 'none', 'prevs': [], 'sub': []}
+    for j in range(2):
+        srule = ['assume_p', 'sorry'][eng.choice(2)]
+        d0['sub'].append({'id': (0, j), 'rule': srule, 'th': 'p|-p' if srule == 'sorry' else STATED[eng.choice(2)], 'prevs': [], 'sub': []})
+    descs.append(d0)
+    d1 = {'id': (1,), 'rule': 'subproof', 'th': STATED[eng.choice(2)], 'prevs': [], 'sub': []}
+    for j, rules in enumerate((['assume_p', 'ident'], ['ident', 'implies_intr_p'])):
+        srule = rules[eng.choice(2)]
+        sd = {'id': (1, j), 'rule': srule, 'th': STATED[eng.choice(2)], 'prevs': [], 'sub': []}
+        for k in range(ARITY[srule]):
+            ln = 1 + eng.choice(2)
+            sd['prevs'].append(tuple(sym_id(eng, 'tc1_%d_%d_%d' % (j, k, jj), -1, 2) for jj in range(ln)))
+        d1['sub'].append(sd)
+    descs.append(d1)
+    ln = 1 + eng.choice(2)
+    descs.append({'id': (2,), 'rule': 'ident', 'th': STATED[eng.choice(2)], 'prevs': [tuple(sym_id(eng, 'tc2_%d' % jj, -1, 2) for jj in range(ln))], 'sub': []})
+    return descs
+
+
 def conc_descs(model, descs):
     out = []
     for d in descs:
@@ -366,7 +392,7 @@ def run_skel(u, out, twin):
         if len(out['cex']) >= 8:
             return
         no_gaps = bool(eng.choice(2))
-        descs = gen_skeleton(eng, fr, fs, third, sub0)
+        descs = gen_skeleton2(eng) if fr == 'two-blocks' else gen_skeleton(eng, fr, fs, third, sub0)
         r = real_check(descs, no_gaps)
         out['evals'] += 1
         out['keys'].add('%s|%s|%x' % (skel_key(descs), no_gaps, hash(tuple(eng.trace)) & 0xffffffff))
@@ -395,7 +421,7 @@ def run_skel(u, out, twin):
     if not done:
         eng.stats.__dict__['budget_cut'] = 1
     out['stats'] = eng.stats.as_dict()
-    out['samples'].append({'first_item': [RULES[fr], STATED[fs]], 'ids': 'symbolic', 'paths': eng.stats.paths})
+    out['samples'].append({'first_item': [fr if fr == 'two-blocks' else RULES[fr], STATED[fs]], 'ids': 'symbolic', 'paths': eng.stats.paths})
 
 
 # ------------------------------------------------------------------ B: checked_extend
